@@ -3,11 +3,16 @@ harness/src/bin/life.rs), encoder/decoder, log parser, generator building blocks
 
 A script is described by a dict
   {"mods": [mod, ..] (2..4), "inj": [(kind, m, time, payload)..]}
-  mod  = {"catch": 0|1, "join": mask (bit id: task id is join()ed, else try_join()ed), "stages": 1..3, "bud": B, "start": [prog..], "msg": [prog..], "tasks": [prog..], "end": prog}
+  mod  = {"catch": 0|1, "join": mask (bit id: task id is join()ed, else try_join()ed), "flags": 0..15 (the other four Stereotyp
+          flags: on_panic_drop, on_panic_restart, on_panic_drop_submodules, on_panic_inform_parent), "stages": 1..3, "bud": B, "start": [prog..], "msg": [prog..], "tasks": [prog..], "end": prog}
   prog = [act..];  act = ("log", x) | ("send", far, d, x) | ("sched", d, x) | ("sleep", d) | ("shutdown",)
                          | ("restart", d) | ("panic",) | ("quiet",) | ("setcatch", 0|1)
                          | ("sched_past", d, x) | ("send_past", far, d, x) | ("restart_past", d)   calls of schedule_at / send_at /
                            current().shutdow_and_restart_at with the time stamp now - (1 + d):
+                         | ("setcatch", 0|1, f)   set_stereotyp with the other four flags f as well
+                         | ("prop_read", j)   log the property "p" of module j % k (always 100 + its index)
+                         | ("prop_panic", 0|1)   panic inside a Prop::update (0) / Prop::map (1) closure on the own property
+                         | ("prop_reenter",)   second access to the own property inside a Prop::update closure (library panic)
                            the library panics inside the call (PANICS: the actions that end a callback / task with a panic)
   inj kind: 0 handle_message_on(m) | 1 add_message_onto(m.out) | 2 add_message_onto(m.far)
 Topology: ring; m.out -> (m+1).in ; m.far -> (m+1).via -> (m+2).fin.
@@ -19,7 +24,7 @@ CALLS = {R_START, R_MSG, R_TASK, R_TIMER, R_END}
 OPS = {"log": 0, "send": 1, "sched": 2, "sleep": 3, "shutdown": 4, "restart": 5, "panic": 6, "quiet": 7}
 
 
-PANICS = ("panic", "sched_past", "send_past", "restart_past")
+PANICS = ("panic", "sched_past", "send_past", "restart_past", "prop_panic", "prop_reenter")
 
 
 def lp(xs):
@@ -43,7 +48,13 @@ def enc_act(a):
     if k == "panic":
         return [6, 0, 0, 0]
     if k == "setcatch":
-        return [8 if a[1] else 9, 0, 0, 0]
+        return [8 if a[1] else 9, a[2] if len(a) > 2 else 0, 0, 0]
+    if k == "prop_read":
+        return [13, a[1], 0, 0]
+    if k == "prop_panic":
+        return [14, a[1], 0, 0]
+    if k == "prop_reenter":
+        return [15, 0, 0, 0]
     if k == "sched_past":
         return [10, 0, a[1], a[2]]
     if k == "send_past":
@@ -68,7 +79,7 @@ def enc_progs(ps):
 
 
 def enc_mod(m):
-    return ([m.get("catch", 0) + 2 * m.get("join", 0), m.get("stages", 1) - 1, m.get("bud", 0)] + enc_progs(m.get("start", []))
+    return ([m.get("catch", 0) + 2 * m.get("join", 0) + 16 * m.get("flags", 0), m.get("stages", 1) - 1, m.get("bud", 0)] + enc_progs(m.get("start", []))
             + enc_progs(m.get("msg", [])) + enc_progs(m.get("tasks", [])) + enc_prog(m.get("end", [])))
 
 
@@ -119,15 +130,17 @@ class Cur:
 def dec_prog(v):
     out = []
     for i in range(0, len(v) - len(v) % 4, 4):
-        o, a, b, c = v[i] % 13, v[i + 1], v[i + 2], v[i + 3]
+        o, a, b, c = v[i] % 16, v[i + 1], v[i + 2], v[i + 3]
+        sc = (lambda bit: ("setcatch", bit, a % 16) if a % 16 else ("setcatch", bit))
         out.append([("log", c), ("send", a % 2, b, c), ("sched", b, c), ("sleep", b), ("shutdown",), ("restart", b),
-                    ("panic",), ("quiet",), ("setcatch", 1), ("setcatch", 0), ("sched_past", b, c), ("send_past", a % 2, b, c), ("restart_past", b)][o])
+                    ("panic",), ("quiet",), sc(1), sc(0), ("sched_past", b, c), ("send_past", a % 2, b, c), ("restart_past", b),
+                    ("prop_read", a), ("prop_panic", a % 2), ("prop_reenter",)][o])
     return out
 
 
 def dec_mod(c):
     hdr = c.next()
-    m = {"catch": hdr % 2, "join": (hdr // 2) % 8, "stages": 1 + c.next() % 3, "bud": c.next()}
+    m = {"catch": hdr % 2, "join": (hdr // 2) % 8, "flags": (hdr // 16) % 16, "stages": 1 + c.next() % 3, "bud": c.next()}
     m["start"] = [dec_prog(b) for b in c.blobs()]
     m["msg"] = [dec_prog(b) for b in c.blobs()]
     m["tasks"] = [dec_prog(b) for b in c.blobs()]
@@ -208,7 +221,7 @@ def pretty(script):
     s = ""
     for i, m in enumerate(d["mods"]):
         s += "m%d{%sstages=%d bud=%d start=[%s] msg=[%s] tasks=[%s] end=[%s]} " % (
-            i, ("catch " if m["catch"] else "") + ("join=%d " % m["join"] if m.get("join") else ""), m["stages"], m["bud"], " | ".join(pretty_prog(p) for p in m["start"]),
+            i, ("catch " if m["catch"] else "") + ("join=%d " % m["join"] if m.get("join") else "") + ("flags=%d " % m["flags"] if m.get("flags") else ""), m["stages"], m["bud"], " | ".join(pretty_prog(p) for p in m["start"]),
             " | ".join(pretty_prog(p) for p in m["msg"]), " | ".join(pretty_prog(p) for p in m["tasks"]), pretty_prog(m["end"]))
     s += "inject " + " ".join("%s%d@%d(%d)" % (["direct->m", "m.out:", "m.far:"][k], m, t, x) for k, m, t, x in d["inj"])
     return s
@@ -253,11 +266,15 @@ def gen_panic(rng):
     r = rng.random()
     if r < 0.45:
         return ("panic",)
-    if r < 0.65:
+    if r < 0.62:
         return ("sched_past", rng.choice([0, 0, 1, 3, 100]), rng.randint(0, 3))
-    if r < 0.83:
+    if r < 0.65 + 0.1:
         return ("send_past", rng.randint(0, 1), rng.choice([0, 1, 5]), rng.randint(0, 3))
-    return ("restart_past", rng.choice([0, 0, 2, 50]))
+    if r < 0.83:
+        return ("restart_past", rng.choice([0, 0, 2, 50]))
+    if r < 0.93:
+        return ("prop_panic", rng.randint(0, 1))
+    return ("prop_reenter",)
 
 
 def gen_act(rng, k_msgs, in_task, p_ctl):
@@ -274,7 +291,7 @@ def gen_act(rng, k_msgs, in_task, p_ctl):
         return ("log", rng.randint(1, 9))
     if rng.random() < p_ctl:
         return rng.choice([("shutdown",), ("restart", rng.choice(DELAYS)), ("restart", rng.choice(DELAYS)), ("panic",), ("quiet",),
-                           ("setcatch", rng.randint(0, 1)), gen_panic(rng)])
+                           ("setcatch", rng.randint(0, 1), rng.choice([0, 0, 1, 8, 9, 15])), gen_panic(rng), ("prop_read", rng.randint(0, 3))])
     return ("log", rng.randint(10, 19))
 
 
@@ -284,7 +301,8 @@ def gen_prog(rng, k_msgs, in_task, p_ctl, maxlen=4):
 
 def gen_mod(rng, p_ctl, joins=False):
     nm = rng.choice([1, 2, 3, 4])
-    return {"catch": rng.randint(0, 1), "join": rng.choice([0, 1, 2, 3, 5, 7]) if joins else 0, "stages": rng.choice([1, 1, 2, 3]), "bud": rng.choice([0, 2, 4, 6, 10]),
+    return {"catch": rng.randint(0, 1), "join": rng.choice([0, 1, 2, 3, 5, 7]) if joins else 0,
+            "flags": rng.choice([0, 6, 8, 9, 15, rng.randrange(16)]) if joins else 0, "stages": rng.choice([1, 1, 2, 3]), "bud": rng.choice([0, 2, 4, 6, 10]),
             "start": [gen_prog(rng, nm, False, p_ctl / 2) for _ in range(rng.randint(0, 3))],
             "msg": [gen_prog(rng, nm, False, p_ctl) for _ in range(nm)],
             "tasks": [gen_prog(rng, nm, True, p_ctl, 5) for _ in range(rng.choice([0, 1, 1, 2, 3]))],
